@@ -54,20 +54,22 @@ theorem applied_sequences_comparable {N : Nat} {s : State} (h : Reachable N s) (
   · exact Or.inr (key b a hle)
 
 /-- A node applies positions one by one, without gap or repetition: in one step its applied index
-stays, or grows by exactly one (`apply`), or jumps forward when it installs a snapshot. -/
+stays, or grows by exactly one (`apply`), or jumps forward when it installs a snapshot (the fourth case
+is a restart, excluded by C01's "no node loses its memory"). -/
 theorem positions_consecutive {N : Nat} {s s' : State} {a : Action} (hs : step N s a = some s') (n : Nat) :
     (s'.nodes n).applied = (s.nodes n).applied ∨
     (a = .apply n ∧ (s'.nodes n).applied = (s.nodes n).applied + 1) ∨
-    (∃ m, a = .recvSnapshot n m ∧ (s.nodes n).applied < (s'.nodes n).applied) :=
+    (∃ m, a = .recvSnapshot n m ∧ (s.nodes n).applied < (s'.nodes n).applied) ∨
+    (∃ c a', a = .restart n c a') :=
   applied_step hs n
 
 /-- What a node has applied stays applied: the applied sequence only grows (also across snapshot
 installation, which replaces the log by a committed prefix). -/
 theorem applied_sequence_only_grows {N : Nat} {s1 s2 : State} {as : List Action} (h1 : Reachable N s1)
-    (hr : run N s1 as = some s2) (n : Nat) : appliedSeq s1 n <+: appliedSeq s2 n := by
+    (hr : run N s1 as = some s2) (hnr : NoRestart as) (n : Nat) : appliedSeq s1 n <+: appliedSeq s2 n := by
   have i1 := inv_reachable h1
   have i2 := inv_run i1 hr
-  have hm := (run_mono i1 hr).applied n
+  have hm := (run_mono i1 hr hnr).applied n
   unfold appliedSeq
   have hlen1 := i1.s.cm_lt n; have ha1 := i1.a n
   have hlen2 := i2.s.cm_lt n; have ha2 := i2.a n
